@@ -800,6 +800,13 @@ type request struct {
 	ID    int    `json:"id"`
 }
 
+var refusedTexts = []string{
+	"SELECT a FROM t WHERE a =", "SELECT a FROM t WHERE", "SELECT FROM t", "SELECT a, FROM t", "SELECT a FROM", "SELECT a FROM t ORDER BY",
+	"SELECT a FROM t LIMIT", "SELECT a FROM t LIMIT x", "SELECT a FROM t GROUP BY", "SELECT a FROM t JOIN u ON", "SELECT count( FROM t",
+	"INSERT INTO t VALUES (", "INSERT INTO t VALUES (1,", "INSERT INTO t (a VALUES (1)", "UPDATE t SET a =", "UPDATE t SET", "UPDATE t SET a = 1 WHERE b <",
+	"DELETE FROM t WHERE a !=", "DELETE FROM", "CREATE TABLE t (a", "CREATE TABLE t (a INT,", "CREATE TABLE t (a VARCHAR(", "CREATE", "USE", "SHOW", ")", "'", "",
+}
+
 func handle(req request) interface{} {
 	switch req.Mode {
 	case "info":
@@ -814,6 +821,13 @@ func handle(req request) interface{} {
 		sort.Strings(names)
 		return obj{"ok": true, "kinds": kinds, "lex": names}
 	case "c10":
+		if req.ID%40 == 1 {
+			// a front end serves many statements in one process: refused texts come in between the valid ones, cut at
+			// every kind of position, and must leave nothing behind that changes how the next statement parses
+			for _, t := range refusedTexts {
+				runC09(t, false)
+			}
+		}
 		groups, n, nlong, err := runC10(req.Toks, req.Trail, req.Long)
 		if err != nil {
 			return obj{"ok": false, "err": err.Error()}
